@@ -437,10 +437,10 @@ contract(
     'bumble.l2cap:LeCreditBasedChannel.flush_output',
     prop='C07',
     params=dict(self=CHAN),
-    ensures=lambda self: [self.out_sdu is None, len(self.out_queue) == 0],
-    ensures_names=['no-sdu', 'queue-empty'],
-    modifies=['self.out_sdu', 'self.out_queue'],
-    note='used on disconnection only: what was not sent is discarded, no stream claim',
+    ensures=lambda self, old: [self.out_sdu is None, len(self.out_queue) == 0, implies(old.self.drained.is_set(), self.drained.is_set())],
+    ensures_names=['no-sdu', 'queue-empty', 'drained-not-cleared'],
+    modifies=['self.out_sdu', 'self.out_queue', 'self.drained'],
+    note='used on disconnection only: what was not sent is discarded, no stream claim; the drained flag may be set (the channel is idle afterwards) but is never cleared',
 )
 
 
